@@ -415,7 +415,7 @@ def source_of(info):
 
 
 def confirm(S, info):
-    body = (content_source(info) if info.get('construct') == 'content' else binary_source(info) if info.get('binary')
+    body = (content_source(info) if info.get('construct') == 'content' else codeblock_source(info) if info.get('construct') == 'codeblock' else binary_source(info) if info.get('binary')
             else equation_source(info) if info.get('construct') == 'equation' else dot_source(info) if info.get('dotchain') else source_of(info))
     for src in ([body + '\n'] if not info.get('suppressed') else ['text ' + body + ' more\n']):
         if S.driver.call('erroneous', hexs(src))[1] == '1':
@@ -971,3 +971,148 @@ def dot_source(info):
     gs, calls = info['gaps'], info['calls']
     src = 'i0' + ''.join(gs[2 * k - 2] + '.' + gs[2 * k - 1] + 'm%d' % k + ('()' if calls[k - 1] else '') for k in range(1, len(calls) + 1))
     return '#f(%s)' % src if info['construct'] == 'call' else '#(%s,)' % src
+
+
+# ---------------------------------------------------------------------------------------------------------------
+# code blocks: `{ a; b }` with blanks, line breaks, blank lines, semicolons and comments between the statements
+
+CB_EDGE = ['', ' ', '\n', '\n\n\n', ' /*c*/ ', '\n/*c*/\n', ' //c\n']
+CB_BETWEEN = ['\n', '\n\n', '\n\n\n\n', ';', '; ', ';\n', ' /*c*/\n', '\n/*c*/\n', ' //c\n', '\n//c\n', '; /*c*/ ']
+
+
+def trivia_nodes(kt, g, counter):
+    """nodes of a gap string: whitespace runs, `;`, /*c*/ and //c comments (comment texts made unique by the counter)"""
+    out = []
+    for part in re.findall(r'//c|/\*c\*/|;|[ \n]+', g):
+        if part == ';':
+            out.append(Node(kt.k('Semicolon'), text=Str.lit(';')))
+        elif part == '//c':
+            counter[0] += 1
+            out.append(Node(kt.k('LineComment'), text=Str.lit('//c%d' % counter[0])))
+        elif part == '/*c*/':
+            counter[0] += 1
+            out.append(Node(kt.k('BlockComment'), text=Str.lit('/*c%d*/' % counter[0])))
+        else:
+            out.append(Node(kt.k('Space'), text=Str.lit(part)))
+    return out
+
+
+def codeblock_node(kt, names, gaps):
+    """`{` g0 s0 g1 s1 .. gn `}`: trivia before the first / behind the last statement are children of the block, the rest of its Code"""
+    counter = [0]
+    lead = trivia_nodes(kt, gaps[0], counter)
+    code = []
+    for i, nm in enumerate(names):
+        if i:
+            code += trivia_nodes(kt, gaps[i], counter)
+        code.append(Node(kt.k('Ident'), text=Str.lit(nm)))
+    trail = trivia_nodes(kt, gaps[-1], counter)
+    return Node(kt.k('CodeBlock'), children=[Node(kt.k('LeftBrace'), text=Str.lit('{'))] + lead + [Node(kt.k('Code'), children=code)] + trail +
+                [Node(kt.k('RightBrace'), text=Str.lit('}'))])
+
+
+def relex_codeblock(toks, kt):
+    if len(toks) < 2 or toks[0] != ('w', '{') or toks[-1] != ('w', '}'):
+        return None
+    inner = toks[1:-1]
+    nodes = []
+    ws = ''
+    for t in inner:
+        if t in (('s',), ('nl',)):
+            ws += ' ' if t == ('s',) else '\n'
+            continue
+        if ws:
+            nodes.append(Node(kt.k('Space'), text=Str.lit(ws)))
+            ws = ''
+        w = t[1]
+        if w == ';':
+            nodes.append(Node(kt.k('Semicolon'), text=Str.lit(';')))
+        elif w.startswith('//'):
+            nodes.append(Node(kt.k('LineComment'), text=Str.lit(w)))
+        elif w.startswith('/*'):
+            nodes.append(Node(kt.k('BlockComment'), text=Str.lit(w)))
+        elif re.match(r'^[A-Za-z_]', w):
+            nodes.append(Node(kt.k('Ident'), text=Str.lit(w)))
+        else:
+            return None
+    if ws:
+        nodes.append(Node(kt.k('Space'), text=Str.lit(ws)))
+    idx = [i for i, n in enumerate(nodes) if n.kind == kt.k('Ident')]
+    if not idx:
+        return None
+    lead, code, trail = nodes[:idx[0]], nodes[idx[0]:idx[-1] + 1], nodes[idx[-1] + 1:]
+    # a line comment must be followed by a line break, statements must be separated: otherwise the text is not the same program
+    return Node(kt.k('CodeBlock'), children=[Node(kt.k('LeftBrace'), text=Str.lit('{'))] + lead + [Node(kt.k('Code'), children=code)] + trail +
+                [Node(kt.k('RightBrace'), text=Str.lit('}'))])
+
+
+def explore_codeblock(S, max_stmts=2, edge=CB_EDGE, between=CB_BETWEEN):
+    kt = T.KT
+    core = S.core
+    f_attr = S.find_fn(core, 'AttrStore::new')
+    f_expr = S.find_fn(core, 'PrettyPrinter::convert_expr')
+    found = []
+    tasks = []
+    for n in range(1, max_stmts + 1):
+        for gaps in itertools.product(edge, *([between] * (n - 1)), edge):
+            def body(ctx, gaps=gaps, n=n):
+                m = S.machine(core, STD, ctx)
+                m.max_depth = 200
+                root = codeblock_node(kt, ['s%d' % i for i in range(n)], gaps)
+                cfg = Agg('Config', None, (2, z3.BitVec('cfg_width', 64), 2, False), pp.CFG_NAMES)
+                c0_ = pp.context(mode=0)         # `#{..}` in markup; break suppression symbolic
+
+                def describe(mdl):
+                    return dict(construct='codeblock', gaps=list(gaps), suppressed=model_bool(mdl, c0_.get('break_suppressed')))
+
+                def convert(node):
+                    attrs = m.call_fn(f_attr, [node])
+                    pr, _ = pp.printer(m, cfg=cfg, attrs=attrs)
+                    return m.call_fn(f_expr, [pr, c0_, T.make_cast(m, node, 'Expr')])
+                try:
+                    d1 = convert(root)
+                except Panic as p:
+                    S.absorb(m)
+                    ctx.must_hold(False, 'C05:list-construct-panic', lambda mdl: dict(describe(mdl), panic=p.msg))
+                    return
+                for mode, pf in (('broken', False), ('flat-where-possible', True)):
+                    render.prefer_flat = pf
+                    at1 = []
+                    render(d1, False, at1)
+                    t1 = text_of(at1)
+                    if t1 is None:
+                        continue
+                    root2 = relex_codeblock(t1, kt)
+                    if root2 is None:
+                        ctx.witness('output not read back (%s)' % mode)
+                        continue
+                    try:
+                        d2 = convert(root2)
+                    except Panic as p:
+                        ctx.must_hold(False, 'C05:list-construct-panic', lambda mdl, t1=t1: dict(describe(mdl), second_pass_input=show_tokens(t1), panic=p.msg))
+                        continue
+                    render.prefer_flat = pf
+                    at2 = []
+                    render(d2, False, at2)
+                    t2 = text_of(at2)
+                    ctx.must_hold(t2 == t1, 'C03:code-block-layout-is-not-a-fixed-point',
+                                  lambda mdl, t1=t1, t2=t2, mode=mode: dict(describe(mdl), layout=mode, first_pass=show_tokens(t1), second_pass=show_tokens(t2 or [])))
+                    ctx.witness('second pass run (%s)' % mode)
+                S.absorb(m)
+            src = codeblock_source(dict(gaps=gaps))
+            tasks.append(('twopass.codeblock[%s]' % show(src), 'two passes of the real printer over the code block %s' % show(src), body, dict(statements=n)))
+    for ob, viol in S.explore_batch(tasks):
+        for lab, mdl, info in viol:
+            found.append((lab, info))
+    return found
+
+
+def codeblock_source(info):
+    gaps = info['gaps']
+    n = len(gaps) - 1
+    s = '#{' + gaps[0]
+    for i in range(n):
+        if i:
+            s += gaps[i]
+        s += 's%d' % i
+    return s + gaps[-1] + '}'
